@@ -324,3 +324,73 @@ def c06(tier):
         f"{{ {C06_PRE} RyV = n++; RyV = RyV + n++; {C06_POST} }}",
     ]
     return out
+
+
+# ------------------------------------------------------------------------------------------ C07
+ALIASES = ["PC", "SP", "LR", "FP", "GP", "FRAMEKEY", "LC0", "LC1", "SA0", "SA1", "USR", "UPCYCLE", "PKTCOUNT", "UTIMER",
+           "CS0", "CS1", "M0", "M1", "P3_0", "UGP", "HTID"]
+IMM_LETTERS = "rRsSuUmn"
+
+
+def _obs(letter, wide=True):
+    """observation destination that does not share the operand's letter"""
+    l = "y" if letter == "x" else "x"
+    return f"R{l}{l}V" if wide else f"R{l}V"
+
+
+def c07(tier):
+    out = []
+    # letter operands (own table of the Hexagon operand syntax, from QEMU's hex_common.py)
+    for cls in "RPCMN":
+        for let in "stuvwdexyz":
+            for pair in (False, True):
+                if pair and cls == "N":
+                    continue  # new-value operands are single registers in the Hexagon operand syntax
+                for suf in "VN":
+                    tok = f"{cls}{let}{let if pair else ''}{suf}"
+                    srcv = "RttV" if pair else "RtV"
+                    if let == "t":
+                        srcv = "RssV" if pair else "RsV"
+                    out.append(f"{{ {_obs(let)} = {tok}; }}")                        # read position
+                    out.append(f"{{ {tok} = {srcv}; }}")                              # write position
+                    out.append(f"{{ {tok} = {srcv}; {_obs(let)} = {tok}; }}")        # read after write
+    # explicitly numbered registers
+    for name in ["R0", "R1", "R3", "R10", "R13", "R29", "R31", "R32", "P0", "P1", "P2", "P3", "P4", "C0", "C1", "C9",
+                 "C13", "M0", "M1", "G0", "S0", "R1:0", "R3:2", "R31:30", "C1:0", "C3:2"]:
+        for new in ("", "_NEW"):
+            tok = name + new
+            out.append(f"{{ RxxV = {tok}; }}")
+            out.append(f"{{ {tok} = RssV; }}" if ":" in name else f"{{ {tok} = RsV; }}")
+            out.append(f"{{ {tok} = {'RssV' if ':' in name else 'RsV'}; RxxV = {tok}; }}")
+    for a in ALIASES:
+        for new in ("", "_NEW"):
+            tok = f"HEX_REG_ALIAS_{a}{new}"
+            out.append(f"{{ RxxV = {tok}; }}")
+            out.append(f"{{ {tok} = RsV; }}")
+            out.append(f"{{ {tok} = RsV; RxxV = {tok}; }}")
+            out.append(f"{{ RxxV = {tok}; {tok} = RsV; RyyV = {tok}; }}")
+    # immediates
+    for l in IMM_LETTERS:
+        out.append(f"{{ RxxV = {l}iV; }}")
+        out.append(f"{{ RxV = {l}iV >> 1; }}")
+        out.append(f"{{ {l}iV = {l}iV & ~3; RxxV = {l}iV; }}")
+        out.append(f"{{ RxxV = RssV + {l}iV; }}")
+    out.append("{ RxxV = siV; RyyV = uiV; }")
+    out.append("{ RxV = siV + SiV; RyV = uiV - UiV; }")
+    # loads / stores
+    for sg in "su":
+        for w in (8, 16, 32, 64):
+            out.append(f"{{ EA = RsV + siV; RxxV = mem_load_{sg}{w}(EA); }}")
+            out.append(f"{{ RxxV = mem_load_{sg}{w}(RsV); }}")
+            out.append(f"{{ EA = RsV; mem_store_{sg}{w}(EA, RttV); }}")
+            out.append(f"{{ mem_store_{sg}{w}(RsV + uiV, RttV); RxxV = mem_load_{sg}{w}(RsV + uiV); }}")
+            out.append(f"{{ EA = RsV; mem_store_{sg}{w}(EA, RttV); mem_store_u8(EA + 1, RuV); RxxV = mem_load_{sg}{w}(EA); }}")
+    # jumps and pc
+    out += ["{ JUMP(RsV); }", "{ JUMP(HEX_REG_ALIAS_PC + riV); }", "{ JUMP(RssV); }", "{ if (PuV & 1) { JUMP(RsV); } }",
+            "{ if (PuV & 1) { JUMP(RsV); } else { JUMP(RtV); } }", "{ JUMP(RsV); JUMP(RtV); }",
+            "{ RxV = HEX_REG_ALIAS_PC; }", "{ RxxV = HEX_REG_ALIAS_PC; }", "{ JUMP(HEX_REG_ALIAS_LR); }",
+            "{ riV = (riV & ~3); JUMP(HEX_REG_ALIAS_PC + riV); }", "{ HEX_REG_ALIAS_LR = HEX_REG_ALIAS_LR_NEW; }",
+            "{ RxV = RsN + PtN; }", "{ RxV = NsN; }", "{ mem_store_u32(RsV, NtN); }", "{ PdV = PsV & PtN; }",
+            "{ if (P0_NEW & 1) { RxV = RsV; } }", "{ P0 = RsV; P1 = RtV; RxV = P0 + P1; }", "{ cancel_slot; }",
+            "{ STORE_SLOT_CANCELLED(pkt, hi->slot); }" if False else "{ if (PuV & 1) { RxV = 1; } else { cancel_slot; } }"]
+    return out
